@@ -285,6 +285,9 @@ def run(P, C, tier):
              "a definition change grants the room only to a member valid at the current date "
              "(found: %s)" % ("has_user, which ignores `enabled` and dates" if undated else "no membership test" if not dated else "dated"))
     C.floor("R4", "add_allowed_room callers", len(sites), 1)
+    C.rule("R5", "membership at a date is decided by the sibling history lookups (latest entry at or before the date)")
+    from rules import rights as _rights
+    _rights.history_lookup_rule(P, C, "R5")
     removes = []
     for body in P.bodies.values():
         for bi, t in body.calls_to(r"HashSet::(remove|retain|clear|take)$"):
